@@ -54,6 +54,8 @@ package transactional
 //gvc:  requires refnn: ref != nil
 //gvc:  modifies map:has, r.temporal.#refs
 //gvc:  ensures cas: err == nil && old != nil ==> old(tx_view(r, strid(old.n))) != 0 && field(old(tx_view(r, strid(old.n))), "plumbing.Reference.h") == old.h
+//gvc:  ensures samekind: err == nil && old != nil ==> field(old(tx_view(r, strid(old.n))), "plumbing.Reference.t") == old.t
+//gvc:  ensures sametarget: err == nil && old != nil && old.t == 2 ==> bytes_eq(field(old(tx_view(r, strid(old.n))), "plumbing.Reference.target"), old.target)
 //gvc:  ensures base: r.ReferenceStorer.#refs == old(r.ReferenceStorer.#refs)
 //gvc:end
 
